@@ -13,6 +13,6 @@ def run(ctx):
     if not ctx.build_driver():
         return
     h = _v2.match_stream(ctx, 'planted')
-    if h and _v2.harness(ctx, 'c01'):
+    if _v2.harness(ctx, 'c01'):   # the oracle runs even when the model-stream harness failed
         ctx.oracle_stream('planted-copies', ctx.rundir + '/c01.verdicts', ctx.rundir + '/c01.cases')
     ctx.cov['distinct_nontrivial'] = sum(v['nontrivial'] for v in ctx.cov['streams'].values())
